@@ -92,6 +92,8 @@ Proof.
     + destruct cast; [destruct v|]; simpl; intros [= <-]; try reflexivity. destruct v; reflexivity.
     + destruct (arg_value r); try discriminate. destruct v; try discriminate.
       intros [= <-]. reflexivity.
+    + destruct cast; [destruct v as [s|b]; simpl; [destruct (cast_other ko_default ko_table s); try discriminate|discriminate]|];
+        simpl; intros [= <-]; try reflexivity. destruct v; reflexivity.
 Qed.
 
 (** an argument after the options: either untouched, or set by [set_value] *)
@@ -147,11 +149,11 @@ Proof.
     destruct (co_form o).
     + destruct Hf as [Kb Ni]. split; [exact Ni | rewrite Kb; discriminate].
     + destruct Hf as (Tv&_&Nl&_). split; [|exact Nl]. unfold takes_value in Tv.
-      destruct (a_kind (r_spec r)); [| |discriminate|]; destruct (a_incrementable (r_spec r)); auto; discriminate.
+      destruct (a_kind (r_spec r)); try discriminate; destruct (a_incrementable (r_spec r)); auto; discriminate.
     + destruct Hf as (Tv&_&Nl&_). split; [|exact Nl]. unfold takes_value in Tv.
-      destruct (a_kind (r_spec r)); [| |discriminate|]; destruct (a_incrementable (r_spec r)); auto; discriminate.
+      destruct (a_kind (r_spec r)); try discriminate; destruct (a_incrementable (r_spec r)); auto; discriminate.
     + destruct Hf as (Tv&_&Nl&_). split; [|exact Nl]. unfold takes_value in Tv.
-      destruct (a_kind (r_spec r)); [| |discriminate|]; destruct (a_incrementable (r_spec r)); auto; discriminate.
+      destruct (a_kind (r_spec r)); try discriminate; destruct (a_incrementable (r_spec r)); auto; discriminate.
   - left. unfold apply_copt in N'. rewrite N0 in N'.
     destruct (set_value r0 (copt_input o) true); [|congruence].
     rewrite (nth_error_upd_nth_other _ _ _ _ Ne) in N'. congruence.
